@@ -65,6 +65,37 @@ func AtVirtual(t *testing.T, offset time.Duration, f func()) {
 	}
 }
 
+// AtVirtualAbandonable is AtVirtual for callers with a wall-clock watchdog: when abandon is closed before the bubble has ended,
+// it returns true and leaves the bubble behind (its goroutines stay where they are). A bubble whose goroutine waits for real
+// I/O that never completes - a datagram lost on a loaded loopback interface - is never "durably blocked", so its virtual
+// clock, and with it every virtual deadline inside it, stands still for ever.
+func AtVirtualAbandonable(t *testing.T, offset time.Duration, f func(), abandon <-chan struct{}) (abandoned bool) {
+	done := make(chan struct{})
+	var pv any
+	go func() {
+		defer close(done)
+		defer func() { pv = recover() }()
+		synctest.Test(t, func(t *testing.T) {
+			if offset > 0 {
+				time.Sleep(offset)
+			}
+			f()
+		})
+	}()
+	select {
+	case <-done:
+	case <-abandon:
+		return true
+	}
+	if pv != nil {
+		buf := make([]byte, 1<<20)
+		n := runtime.Stack(buf, true)
+		fmt.Fprintf(os.Stderr, "pcommon.AtVirtualAbandonable: synctest panicked: %v\nall goroutines:\n%s\n", pv, buf[:n])
+		panic(pv)
+	}
+	return false
+}
+
 // Teardown destroys a client inside a synctest bubble and waits until its background goroutines are gone. Destroy sets the
 // session end times to "now", which gives the renewal goroutine a zero-length timer next to the pending cancel: when its
 // select takes the timer and Destroy has not replaced the credentials yet, the goroutine logs in again and adds a session that
